@@ -127,24 +127,44 @@ def run_sh(cmds):
     return out
 
 
-def check_sh(cases, failures, counts):
-    """cases: (id, request, cmdline bytes, expected argv)"""
+def check_sh(cases, failures, counts, max_single=40):
+    """cases: (id, request, cmdline bytes, expected argv).  Batches of commands go through one
+    `sh -c`; a batch that does not come back as expected is bisected (bounded number of extra
+    shell runs) to name concrete failing cases; further bad batches are only counted."""
     todo = [c for c in cases if b"\0" not in c[2]]
     counts["sh_skipped_nul"] = len(cases) - len(todo)
+    budget = [max_single]
+
+    def ok(batch):
+        res = run_sh([b"p " + c[2] for c in batch])
+        return res is not None and len(res) == len(batch) and all(r == c[3] for r, c in zip(res, batch)), res
+
+    def locate(batch):
+        # bisect to one failing case
+        while len(batch) > 1 and budget[0] > 0:
+            budget[0] -= 1
+            half = batch[:len(batch) // 2]
+            good, _ = ok(half)
+            batch = batch[len(batch) // 2:] if good else half
+        return batch[0]
+
     B = 400
+    bad_batches = 0
     for k in range(0, len(todo), B):
         batch = todo[k:k + B]
-        res = run_sh([b"p " + c[2] for c in batch])
-        if res is not None and len(res) == len(batch) and all(r == c[3] for r, c in zip(res, batch)):
-            counts["sh"] = counts.get("sh", 0) + len(batch)
+        counts["sh"] = counts.get("sh", 0) + len(batch)
+        good, _ = ok(batch)
+        if good:
             continue
-        for c in batch:  # locate the culprit(s)
-            r = run_sh([b"p " + c[2]])
-            counts["sh"] = counts.get("sh", 0) + 1
-            if r is None or len(r) != 1 or r[0] != c[3]:
-                failures.append({"oracle": "sh", "id": c[0], "request": c[1], "jaq_output_hex": c[2].hex(),
-                                 "expected_argv_hex": [w.hex() for w in c[3]],
-                                 "sh_argv_hex": None if r is None else [[w.hex() for w in a] for a in r]})
+        bad_batches += 1
+        if budget[0] <= 0:
+            continue
+        c = locate(batch)
+        _, r = ok([c])
+        failures.append({"oracle": "sh", "id": c[0], "request": c[1], "jaq_output_hex": c[2].hex(),
+                         "expected_argv_hex": [w.hex() for w in c[3]],
+                         "sh_argv_hex": None if r is None else [[w.hex() for w in a] for a in r]})
+    counts["sh_bad_batches"] = bad_batches
 
 
 # ------------------------------------------------------------------ tsv
